@@ -104,6 +104,24 @@ func extProblem(c *xcase, crt *x509.Certificate) (problem string, ok bool) {
 		if d := compareExt(got, c.P, nil); d != "" {
 			return "extracted value differs from what the extension encodes: " + d, ok
 		}
+		// the result is the caller's: scribbling over it changes nothing for the next extraction from the same certificate
+		for i := range got.TCB.CPUSvn {
+			got.TCB.CPUSvn[i] ^= 0xff
+		}
+		for i := range got.TCB.CPUSvnComponents {
+			got.TCB.CPUSvnComponents[i] ^= 0xff
+		}
+		got.TCB.PCESvn, got.FMSPC, got.PCEID, got.PPID = ^got.TCB.PCESvn, "scribbled", "scribbled", "scribbled"
+		var again *pcs.PckExtensions
+		if pv, st := mon.Guard(func() { again, err = pcs.PckCertificateExtensions(crt) }); pv != "" {
+			return "second extraction from the same certificate panics: " + pv + "\n" + st, false
+		}
+		if err != nil {
+			return "second extraction from the same certificate fails: " + err.Error(), false
+		}
+		if d := compareExt(again, c.P, nil); d != "" {
+			return "after the caller overwrote the first result, a second extraction from the same certificate returns: " + d + " (results share memory)", ok
+		}
 	case "error":
 		if err == nil {
 			return fmt.Sprintf("malformed extension (%s) accepted: %+v", c.Class, *got), ok
